@@ -2050,6 +2050,11 @@ func (d *Document) parseDocument() error {
 	}
 
 done:
+	// 主文档部件中没有（过渡命名空间的）w:document 根元素：空部件、ISO Strict 命名空间或其他根元素。
+	// 此时 Body 从未被创建，返回错误而不是在下面解引用 nil
+	if d.Body == nil {
+		return WrapError("parse_document", fmt.Errorf("%w: word/document.xml has no w:document element in the WordprocessingML namespace", ErrInvalidDocument))
+	}
 	Infof("解析完成，共 %d 个元素", len(d.Body.Elements))
 	return nil
 }
